@@ -2,6 +2,7 @@
   GM.Proof.QuoteSimHtml — one-line-step simulation of the HTML block parser (parser/html_block.go).
 -/
 import GM.Proof.QuoteSimTree
+import GM.Proof.QuoteSimLeafA
 
 namespace GM.Blocks
 open GM GM.Text GM.Spec GM.Proof.Reader
@@ -109,9 +110,9 @@ theorem htmlOpenTail_s2 {src k ls p} {sA sB : St} (h : SR src k ls p sA sB) (lp 
   · rw [if_pos hc0, if_pos hc0]
     exact S2.pure ⟨⟨rfl, .inl ⟨rfl, rfl⟩⟩, p, Nat.le_refl _, h⟩
   · rw [if_neg hc0, if_neg hc0]
-    refine S2.bind (P := fun x y sA' sB' => y = x ∧ SR src k ls p sA' sB')
-      (S2.liftE (fun x hx => ⟨x, hx, rfl, h⟩)) (fun x y sA2 sB2 hq => ?_)
-    obtain ⟨hy, h2⟩ := hq
+    refine S2.bind (P := fun x y sA' sB' => y = x ∧ p < lineEnd src ls ∧ SR src k ls p sA' sB')
+      (S2.liftE (fun x hx => ⟨x, hx, rfl, by have := (idx_view_la hx).2.1; omega, h⟩)) (fun x y sA2 sB2 hq => ?_)
+    obtain ⟨hy, hplt, h2⟩ := hq
     subst hy
     by_cases hc1 : (y != 60) = true
     · rw [if_pos hc1, if_pos hc1]
@@ -127,7 +128,7 @@ theorem htmlOpenTail_s2 {src k ls p} {sA sB : St} (h : SR src k ls p sA sB) (lp 
         subst hm
         refine S2.bind (html_advance_s2 h3) (fun _ _ sA4 sB4 hq => ?_)
         obtain ⟨p', hp', h4⟩ := hq
-        refine S2.bind (appendLine_s2 h4 n (html_segRel h.r.inl)) (fun _ _ sA5 sB5 h5 => ?_)
+        refine S2.bind (appendLine_s2 h4 n (html_segRel h.r.inl) (.inl (by simp only [segA]; omega))) (fun _ _ sA5 sB5 h5 => ?_)
         exact S2.pure ⟨⟨rfl, .inr ⟨n, hn0, rfl, rfl⟩⟩, p', hp', h5⟩
 
 theorem htmlOpen_sim (src : Bytes) : OpenSim src .html := by
@@ -190,7 +191,7 @@ theorem html_value_q {src : Bytes} {s t : Segment} (h : SegRel src s t) :
   rw [e1]
   rfl
 
-theorem html_appendTail_s2 {src k ls p} {sA sB : St} (h : SR src k ls p sA sB) (node : Nat) :
+theorem html_appendTail_s2 {src k ls p} {sA sB : St} (h : SR src k ls p sA sB) (node : Nat) (hplt : p < lineEnd src ls) :
     S2 (fun a b sA' sB' => b = a ∧ ∃ p', p ≤ p' ∧ SR src k ls p' sA' sB')
       ((do
         appendLine node (segA src ls p)
@@ -200,12 +201,13 @@ theorem html_appendTail_s2 {src k ls p} {sA sB : St} (h : SR src k ls p sA sB) (
         appendLine (node + 1) (shK k (segA src ls p))
         advance ((shK k (segA src ls p)).len - (trimRightSpaceLength ((viewA src ls p).getD []) : Int))
         pure stContinueNoChildren : M PState) sB) := by
-  refine S2.bind (appendLine_s2 h node (html_segRel h.r.inl)) (fun _ _ sA1 sB1 h1 => ?_)
+  refine S2.bind (appendLine_s2 h node (html_segRel h.r.inl) (.inl (by simp only [segA]; omega))) (fun _ _ sA1 sB1 h1 => ?_)
   refine S2.bind (html_advance_s2 h1) (fun _ _ sA2 sB2 hq => ?_)
   obtain ⟨p', hp', h2⟩ := hq
   exact S2.pure ⟨rfl, p', hp', h2⟩
 
-theorem html_closeTail_s2 {src k ls p} {sA sB : St} (h : SR src k ls p sA sB) (node : Nat) (c : Bool) :
+theorem html_closeTail_s2 {src k ls p} {sA sB : St} (h : SR src k ls p sA sB) (node : Nat) (c : Bool)
+    (hplt : p < lineEnd src ls) :
     S2 (fun a b sA' sB' => b = a ∧ ∃ p', p ≤ p' ∧ SR src k ls p' sA' sB')
       ((if c = true then do
           modNode node fun n => { n with closure := segA src ls p }
@@ -223,15 +225,20 @@ theorem html_closeTail_s2 {src k ls p} {sA sB : St} (h : SR src k ls p sA sB) (n
           appendLine (node + 1) (shK k (segA src ls p))
           advance ((shK k (segA src ls p)).len - (trimRightSpaceLength ((viewA src ls p).getD []) : Int))
           pure stContinueNoChildren : M PState) sB) := by
-  refine html_s2_ite (fun _ => ?_) (fun _ => html_appendTail_s2 h node)
+  refine html_s2_ite (fun _ => ?_) (fun _ => html_appendTail_s2 h node hplt)
   refine S2.bind (modNode_s2 h node _ _ (fun a b hab => ?_)) (fun _ _ sA1 sB1 h1 => ?_)
-  · exact { hab with closure := .inr (html_segRel h.r.inl) }
+  · exact { hab with closure := .inr (html_segRel h.r.inl), closNE := fun _ => by simp only [segA]; omega }
   · refine S2.bind (html_advance_s2 h1) (fun _ _ sA2 sB2 hq => ?_)
     obtain ⟨p', hp', h2⟩ := hq
     exact S2.pure ⟨rfl, p', hp', h2⟩
 
-theorem htmlContinue_sim (src : Bytes) : ContinueSim src .html := by
-  intro k ls p node sA sB h
+/-- `Continue` of the HTML block parser when there is a current line (on an exhausted reader the segment it would
+    store is empty, which the relation does not allow in a raw block / as a closure segment) -/
+theorem htmlContinue_sim' (src : Bytes) : ∀ k ls p node sA sB, SR src k ls p sA sB → p < src.length →
+    S2 (fun a b sA' sB' => b = a ∧ ∃ p', p ≤ p' ∧ SR src k ls p' sA' sB')
+      (bpContinue .html node sA) (bpContinue .html (node + 1) sB) := by
+  intro k ls p node sA sB h hp
+  have hplt : p < lineEnd src ls := h.r.inl.lt_iff.mp hp
   show S2 _ (htmlContinue node sA) (htmlContinue (node + 1) sB)
   unfold htmlContinue
   refine S2.bind (getNode_s2 h node) (fun na nb sA0 sB0 hq => ?_)
@@ -242,7 +249,7 @@ theorem htmlContinue_sim (src : Bytes) : ContinueSim src .html := by
   simp only
   rw [hab.htmlType, SegsRel.length hab.lines]
   refine html_s2_ite (fun _ => ?_) (fun _ => ?_)
-  · refine html_s2_ite (fun _ => ?_) (fun _ => html_closeTail_s2 h1 node _)
+  · refine html_s2_ite (fun _ => ?_) (fun _ => html_closeTail_s2 h1 node _ hplt)
     refine S2.bind (P := fun x y sA' sB' => SegRel src x y ∧ SR src k ls p sA' sB')
       (S2.liftE (fun x hx => ?_)) (fun x y sA2 sB2 hq => ?_)
     · obtain ⟨y, hy, hxy⟩ := lineAt_q hab.lines _ x hx
@@ -255,9 +262,9 @@ theorem htmlContinue_sim (src : Bytes) : ContinueSim src .html := by
         (S2.liftE (fun v hv => ⟨v, by rw [html_value_q hxy]; exact hv, rfl, h3⟩)) (fun v w sA4 sB4 hq => ?_)
       obtain ⟨hw, h4⟩ := hq
       rw [hw]
-      refine html_s2_ite (fun _ => S2.pure ⟨rfl, p, Nat.le_refl _, h4⟩) (fun _ => html_closeTail_s2 h4 node _)
-  · refine html_s2_ite (fun _ => ?_) (fun _ => html_appendTail_s2 h1 node)
-    refine html_s2_ite (fun _ => S2.pure ⟨rfl, p, Nat.le_refl _, h1⟩) (fun _ => html_appendTail_s2 h1 node)
+      refine html_s2_ite (fun _ => S2.pure ⟨rfl, p, Nat.le_refl _, h4⟩) (fun _ => html_closeTail_s2 h4 node _ hplt)
+  · refine html_s2_ite (fun _ => ?_) (fun _ => html_appendTail_s2 h1 node hplt)
+    refine html_s2_ite (fun _ => S2.pure ⟨rfl, p, Nat.le_refl _, h1⟩) (fun _ => html_appendTail_s2 h1 node hplt)
 
 /-! ### the statements with the (unneeded) hypothesis that there is a current line -/
 
@@ -265,10 +272,5 @@ theorem htmlOpen_sim' (src : Bytes) : ∀ k ls p parent sA sB, SR src k ls p sA 
     S2 (fun a b sA' sB' => OpenRel a b ∧ ∃ p', p ≤ p' ∧ SR src k ls p' sA' sB')
       (bpOpen .html parent sA) (bpOpen .html (parent + 1) sB) :=
   fun k ls p parent sA sB h _ => htmlOpen_sim src k ls p parent sA sB h
-
-theorem htmlContinue_sim' (src : Bytes) : ∀ k ls p node sA sB, SR src k ls p sA sB → p < src.length →
-    S2 (fun a b sA' sB' => b = a ∧ ∃ p', p ≤ p' ∧ SR src k ls p' sA' sB')
-      (bpContinue .html node sA) (bpContinue .html (node + 1) sB) :=
-  fun k ls p node sA sB h _ => htmlContinue_sim src k ls p node sA sB h
 
 end GM.Blocks
